@@ -538,4 +538,29 @@ example :
       opsOf [(7, 1), (8, 2)] 1 [0, 1, 0] = [.collect 7 1, .update, .collect 8 2] :=
   ⟨_, rfl, rfl, rfl, rfl, rfl, rfl⟩
 
+/-- the samples a hand-over adds depend on the queue and on what was added before, not on the time stamps held -/
+theorem drain_adds_indep (n : Nat) (q : TQ) (u : User) (ts : List Rat) :
+    (drain n q { u with timestamps := ts }).map (·.adds) = (drain n q u).map (·.adds) := by
+  induction n generalizing q u ts with
+  | zero => rfl
+  | succ n ih =>
+    simp only [drain]
+    cases h : q.popleft with
+    | error e => rfl
+    | ok p =>
+      obtain ⟨⟨x, t⟩, q'⟩ := p
+      simp only [bind, Except.bind]
+      exact ih q' { u with adds := u.adds ++ [x], timestamps := dqAppend u.maxLen u.timestamps t }
+        (dqAppend u.maxLen ts t)
+
+/-- **Samples waiting in the collector survive a `load_state`**: loading replaces the time stamps (and the buffer's
+own content) but not the collector, so the next hand-over adds exactly the samples it would have added without the
+load - each once, in order. -/
+theorem load_keeps_pending (u : User) (ts : List Rat) :
+    (u.loadState ts).collector = u.collector ∧
+    ((u.loadState ts).update).map (·.adds) = (u.update).map (·.adds) := by
+  refine ⟨rfl, ?_⟩
+  simp only [User.update, User.loadState, Collector.moveData]
+  exact drain_adds_indep _ _ { u with collector := { q := { maxLen := u.collector.q.maxLen } } } _
+
 end Pamiq.Queue
